@@ -605,6 +605,14 @@ impl IteratorRecord {
         completion: JsResult<JsValue>,
         context: &mut Context,
     ) -> JsResult<JsValue> {
+        // NOTE: an engine error (e.g. a runtime limit) cannot be caught, so no script code, which
+        // includes the `return` method of the iterator, may run after it.
+        if let Err(err) = &completion
+            && !err.is_catchable()
+        {
+            return completion;
+        }
+
         // 1. Assert: Type(iteratorRecord.[[Iterator]]) is Object.
 
         // 2. Let iterator be iteratorRecord.[[Iterator]].
